@@ -334,7 +334,6 @@ func seedState(b *world.Base) (sdk.Context, *world.Snap) {
 	h := world.NewHistory(w)
 	T := world.T0
 	ops := []world.Op{
-		{Kind: world.OpUpdateParams, Signer: -1, ExtendedPeriod: 1},
 		{Kind: world.OpBlock, Time: T.Add(time.Second)},
 		{Kind: world.OpCreateFixed, Signer: 0, StartPrice: "0.5", SellDenom: "sella", SellAmount: "1000", PayDenom: "paya", Start: T, End: T.Add(time.Hour),
 			Schedules: []world.Sched{{Release: T.Add(2 * time.Hour), Weight: "0.5"}, {Release: T.Add(3 * time.Hour), Weight: "0.5"}}},
@@ -408,6 +407,12 @@ func TestC20(t *testing.T) {
 		if !haveCmd[n] {
 			report(col, t, "C20/missing-command/"+n, "the binary registers no command %s for the module", n)
 		}
+	}
+
+	// the one message without a command (authority-gated MsgUpdateParams) is reachable through a
+	// governance proposal only if the application wires the gov module account as the authority
+	if got := b.K.GetAuthority(); got != b.GovAddr {
+		report(col, t, "C20/update-params-authority", "the application wires %s as the authority of MsgUpdateParams; governance proposals are executed by the gov module account %s, so the message cannot be executed", got, b.GovAddr)
 	}
 
 	// ---- tx round trips ----
